@@ -303,6 +303,7 @@ class SymEval:
         self.max_paths = max_paths
         self.inline = inline          # None = every callee with a body; else set of qualified names
         self.noinline = set(noinline)
+        self.inline_free = False      # with an inline set: also inline functions that are not members of a class
         self.round_products = False   # a product of two non-constants (outside fma) is a fresh "rounded" symbol
         self.copysign_model = 'fork'  # or 'sgn': copysign(a, b) = |a| sgn(b) as symbols
         self.preset_outs = {}         # name of a variable handed to an uninterpreted call by address -> constant
@@ -371,7 +372,8 @@ class SymEval:
     def keyname(self, key):
         parts = []
         for x in key[1:] if key[0] in ('v', 'this') else key:
-            parts.append(('[%d]' % x) if isinstance(x, int) else str(x).split('@')[0])
+            parts.append(('[%d]' % x) if isinstance(x, int) else
+                         (str(x).rsplit('@', 1)[-1] if str(x).startswith('c:') else str(x).split('@')[0]))
         s = ''
         for p in parts:
             s += p if (p.startswith('[') or not s) else '.' + p
@@ -556,6 +558,16 @@ class SymEval:
             return v.const_value() != 0
         if must_decide:
             raise Unsupported('loop condition not decided at %s' % f.loc(nid))
+        # a boolean that was already decided on this path keeps its value
+        if isinstance(v, Poly) and n.get('t', '').replace('const ', '').strip() == 'bool':
+            for e in self.eqs:
+                if (e - v).is_zero():
+                    return False
+                if (e - v + Poly.const(1)).is_zero():
+                    return True
+            r = self.choose(2) == 0
+            self.eqs.append(v - Poly.const(1) if r else v)
+            return r
         return self.choose(2) == 0
 
     def assume_equal(self, a, b):
@@ -818,7 +830,8 @@ class SymEval:
             return self.opaque(fr, n, args[off:], ce)
         callee = self.prog.fns.get(ce.get('usr'))
         if callee is None or callee.d.get('body', -1) < 0 or fr.depth >= self.max_depth or \
-                (self.inline is not None and q not in self.inline) or q in self.noinline:
+                (self.inline is not None and q not in self.inline and not (self.inline_free and not callee.cls)) or \
+                q in self.noinline:
             if name in PURE:
                 return self.pure(name, [self.ev(fr, a) for a in args])
             return self.opaque(fr, n, args[off:], ce)
